@@ -134,8 +134,8 @@ recorded classes, it answers exactly like the tree engine. -/
 theorem stage2_eq (hash : Bytes → Nat) (sat : Nat → Bytes → Bool) (noRoute : Bool) (script : List Reg) (R : List Route)
     (hR : specRoutes script = some R) (hN : normal R = true) (hg : GoodR R)
     (hstd : ∀ g ∈ script, g.method ∈ stdMethods) (req : Req) (hp : req.path.head? = some '/')
-    (hS : dShadow1 R req.method (cutAny req.path) = false) (hNm : dSameShape1 R req.method (cutAny req.path) = false)
-    (hC : dCfall1 sat R req.method (cutAny req.path) = false)
+    (hNm : dSameShape1 sat R req.method (cutAny req.path) = false)
+    (hOw : dReplaced1 sat R req.method (cutAny req.path) = false)
     (hO : dOrder1 sat R req.method (cutAny req.path) = false)
     (cr : CRoute) (e : Extract)
     (hmd : (rcBuild hash script).matchDynamic sat req.method req.path = some (cr, e)) :
@@ -189,7 +189,10 @@ theorem stage2_eq (hash : Bytes → Nat) (sat : Nat → Bytes → Bool) (noRoute
       rw [h1] at h2; exact absurd h2 (by simp)
   have hcne : cands sat R req.method (cutAny req.path) ≠ [] := by
     intro e0; rw [e0] at hrc; simp at hrc
-  obtain ⟨ρ, hrho, href⟩ := ref_is_rho sat R req.method (cutAny req.path) hstat hC hcne
+  obtain ⟨ρ, href⟩ : ∃ ρ, refRoute sat R req.method (cutAny req.path) = some ρ := by
+    cases hh : refRoute sat R req.method (cutAny req.path) with
+    | some ρ => exact ⟨ρ, rfl⟩
+    | none => exact absurd (pick_none_nil _ hh) hcne
   -- the compiled route is the reference route
   have hρc : ρ ∈ cands sat R req.method (cutAny req.path) := lemma_pick_mem _ _ href
   have hmatchall : ∀ c ∈ cands sat R req.method (cutAny req.path), (matchPat (cutAny req.path).trail c.pat (cutAny req.path).segs).isSome = true := by
@@ -246,8 +249,8 @@ theorem stage2_eq (hash : Bytes → Nat) (sat : Nat → Bytes → Bool) (noRoute
         have hdyn : r ∈ dynRoutes R req.method := by
           simp only [dynRoutes, List.mem_filter, decide_eq_true_eq]
           exact ⟨hrR, hcm, by simp [hns]⟩
-        have : dSameShape1 R req.method (cutAny req.path) = true := by
-          simp only [dSameShape1, hstat, Bool.not_false, Bool.true_and, hrho]
+        have : dSameShape1 sat R req.method (cutAny req.path) = true := by
+          simp only [dSameShape1, href]
           apply List.any_eq_true.mpr
           refine ⟨r, hdyn, ?_⟩
           simp [hshape, hpp]
@@ -257,7 +260,7 @@ theorem stage2_eq (hash : Bytes → Nat) (sat : Nat → Bytes → Bool) (noRoute
       rw [hadm' ρ hρc] at this; exact absurd this (by simp)
   subst hrρ
   -- both engines serve r with the bindings b
-  have hlook := lemma_lookupM sat noRoute script R hR hN hstd req.method req.path hp hS hC
+  have hlook := lemma_lookupM sat noRoute script R hR hN hstd req.method req.path hp hOw
   rw [href] at hlook
   simp only [Option.map_some, hrm, Option.getD_some] at hlook
   rw [lemma_serve_lookup, hlook]
